@@ -313,6 +313,9 @@ class BaseModel(SolverMixin, ModelInterface):
                     f'in period with label: {self.span[t]} (index: {t})'
                 ) from e
 
+        # No iterations at all if `max_iter` is zero: initialise the counter
+        iteration = 0
+
         for iteration in range(1, max_iter + 1):
             previous_values = current_values.copy()
 
